@@ -21,14 +21,14 @@ NA = {
 
 # property -> (technique, level text, level note, design ref)
 T = {
- "C01": ("abstract interpretation of riscv.init and every effects closure over go/ssa (known-bits + bit-dependence, decision-replay path exploration), template rules F0-F10, exact check of immediate/register-field decoding against the ISA formats",
-         "structural necessary conditions of correct lifting decided for all 160 table entries on all abstract paths: closures do not panic, every decoded operand bit influences the effects, access widths match metadata, operand roles (rs1 address / rs2 value / rd target / CSR bits), x0 guarded, XLEN widths, sign extension of immediates and of W results, operand order of non-commutative operations; immediate formats I/S/B/U/J and register fields are verified bit-exactly. ALU semantics (which operator/gadget, comparison polarity, jalr bit 0, mulhsu, CSR numbering) are NOT decided",
+ "C01": ("abstract interpretation of riscv.init and every effects closure over go/ssa (known-bits + bit-dependence, decision-replay path exploration), template rules F0-F11, exact check of immediate/register-field decoding against the ISA formats",
+         "structural necessary conditions of correct lifting decided for all 160 table entries on all abstract paths: closures do not panic, every decoded operand bit influences the effects, access widths match metadata, operand roles (rs1 address / rs2 value / rd target / CSR bits), x0 guarded, XLEN widths, sign extension of immediates and of W results, operand order of non-commutative operations, every RV64 W-form entry agrees with its RV32 twin up to operators whose low bits depend only on low bits (F11); immediate formats I/S/B/U/J and register fields are verified bit-exactly. ALU semantics (which operator/gadget, comparison polarity, jalr bit 0, mulhsu, CSR numbering) are NOT decided",
          "trusts go/ssa, the abstract interpreter's transfer functions and that pkg/expr constructors mean what they document", "§4 C01"),
  "C02": ("SSA constant evaluation of the opcode tables and of instructionSet for the 8 configurations + exact cube algebra (sharp) against a reference encoding table; dominance rules for length check / 4-byte read",
          "proof by exhaustive symbolic set algebra: for each of the 8 parser configurations the accept set of the implementation equals the reference accept set, patterns are pairwise disjoint and names agree, for all 2^32 words; short input rejected before matching and only 4 bytes read",
          "trusted base: /verif/spec/rv_encodings.json (written from the ISA manual), the cube algebra, the SSA evaluator, and that opcode.Matcher returns the pattern whose masked bytes equal the input (C19 assumed)", "§4 C02"),
- "C03": ("dominance / reachability / pairing rules on Emulator.Step, eval closures, recordOutput and main.runIU over go/ssa",
-         "evaluation discipline of the emulator: all effects evaluated before any is applied, nothing reads state while applying, fall-through exactly when no applied effect wrote the IP, lookup failure returns an error first, every read/write reported with the same key/address/value, memory layering Overlay(Bytes, Sparse). Numeric agreement with a reference machine and absence of panics are NOT decided",
+ "C03": ("dominance / reachability / pairing rules on Emulator.Step, eval closures, recordOutput and main.runIU over go/ssa; unchecked-type-assertion rule for .(expr.Const)",
+         "evaluation discipline of the emulator: all effects evaluated before any is applied, nothing reads state while applying, fall-through exactly when no applied effect wrote the IP, lookup failure returns an error first, every read/write reported with the same key/address/value, memory layering Overlay(Bytes, Sparse), every .(expr.Const) in the emulator is applied to a constant-folded value or checked. Numeric agreement with a reference machine and absence of panics are NOT decided",
          "trusts go/ssa; C14-C16, C18 cover the state containers", "§4 C03"),
  "C04": ("who-may-call + miss-edge dominance + must-pass-through (memoising store) rules; set-algebra truth tables",
          "for every call site of the state provider: dominated by the miss of the same request, memory ranges taken from Missing() of the same request, answer stored before going on; Overlay.Missing = base ∩ overlay; history semantics of the containers is C14-C16",
@@ -57,8 +57,8 @@ T = {
  "C14": ("ghost-interval refinement of cutExpr values (linear forms + branch facts, path alternatives through phis), guard rules on Missing/wholeInterval, byte-slice ownership",
          "every piece put into / taken out of the interval tree covers exactly the address interval it stands for, shifts are (piece.low-addr)*8, cutBegin/cutEnd/expr keep/shift what they document, gaps are emitted under their comparisons; full history semantics (tree library, overlapping sequences) is not decided",
          "trusts go/ssa and the interval tree library (Overlaps sorted, Add/Put/Remove)", "§4 C14"),
- "C15": ("byte-slice ownership analysis with parameter and struct-result summaries, set-algebra truth tables, compaction idiom, guard rules",
-         "no borrowed byte slice is written or retained in mutable blocks, Missing/Blocks are the documented set terms, overlapping blocks rejected, reads return copies under a covering block",
+ "C15": ("byte-slice ownership analysis with parameter and struct-result summaries, set-algebra truth tables, compaction idiom, memmove-direction rule for in-place shifts, guard rules",
+         "no borrowed byte slice is written or retained in mutable blocks, Missing/Blocks are the documented set terms, overlapping blocks rejected, reads return copies under a covering block, the insertion slot is opened by an overlap-safe shift before it is filled",
          "trusts go/ssa; field-based alias abstraction", "§4 C15"),
  "C16": ("set-algebra truth tables (incl. the two range sets inside Load), only-methods-on-base rule, shift/OR/sort patterns",
          "Missing/Blocks and the ranges read per layer are the documented set terms, the base is never stored to, pieces are read with their interval, sorted, shifted by (Begin-addr) and OR-ed at w, a failed base read fails the read",
@@ -72,35 +72,35 @@ T = {
  "C21": ("loop-variable and dataflow rules on parser.Parse/parseIns/newInstruction, error propagation",
          "the walk starts at Begin(), advances by Len() of the parsed instruction until End(), same addr/bytes parsed and stored, Bytes = bytes[:ByteLen], Effects = ConstFold of the lifted effects only, decode/validate errors abort",
          "trusts go/ssa", "§4 C21"),
- "C22": ("command-table discipline (argument count/type agreement with the parsers), nil-function-field rule, user-input taint for constant indexing, line-index taint with raw-index parameter summaries, possibly-nil pointer fields, error-continues-loop rule",
+ "C22": ("command-table discipline (argument count/type agreement with the parsers), nil-function-field rule, user-input taint for constant indexing, line-index taint with raw-index parameter summaries, validator summaries and lower-bound (non-negative) reasoning, possibly-nil pointer fields, error-continues-loop rule",
          "the crash paths that are visible in the shape of the code are decided for every command and every input-handling function; absence of every run-time panic (arithmetic, library) is NOT decided",
          "trusts go/ssa; sanitiser idioms enumerated in DESIGN §3 E10", "§4 C22"),
- "C23": ("post-dominance of re-rendering over successful moves, derived-state rule (fields computed from block order must be recomputed after a block move), rendering loop patterns",
+ "C23": ("post-dominance of re-rendering over successful moves, derived-state must-pass rule (fields computed from block order are recomputed on every path from the success edge of a block move), rendering loop patterns",
          "after a successful move the listing is re-derived, after a rejected one it is untouched; rendering details of lines are not decided",
          "trusts go/ssa", "§4 C23"),
- "C24": ("line-index taint in Print/Format methods (granted height), loop-budget rule in distributeLines, error-before-print dominance, sibling agreement lines()/Print of the register view",
-         "indices bounded by slice length, the budget decreases with every line handed out, too few lines is an error before printing, the register view prints what it counts; exact line counts for all states are not decided",
+ "C24": ("line-index taint in Print/Format methods (granted height) with upper and lower bounds, loop-budget rule in distributeLines, error-before-print dominance, sibling agreement lines()/Print of the register view",
+         "indices bounded by slice length and not negative, the budget decreases with every line handed out, too few lines is an error before printing, the register view prints what it counts; exact line counts for all states are not decided",
          "trusts go/ssa", "§4 C24"),
- "C25": ("abstract interpretation of instruction.String() per table entry: dependence set of the text vs dependence set of the effects template",
+ "C25": ("abstract interpretation of instruction.String() per table entry: dependence set of the text (exact-copy bit tracking and structural text signatures decide when path conditions matter) vs dependence set of the effects template",
          "every operand bit that influences the lifted behaviour influences the text, and the text starts with the mnemonic, for all 160 entries; 15 listed known findings (shift amounts, CSR zimm not rendered)",
          "trusts go/ssa and the abstract interpreter; fmt.Sprintf/strings.Join modelled as dependence-preserving", "§4 C25"),
- "C26": ("error-propagation analysis over cmd/mltwist, elf, parser, deps, basicblock; exit-code/stderr rule in main; header-sized allocation rule",
-         "every error is returned or checked with a failing branch that cannot return nil; main prints to stderr and exits non-zero; 1 listed known finding (unbounded Memsz allocation). Absence of panics in general is NOT decided",
+ "C26": ("error-propagation analysis over cmd/mltwist, elf, parser, deps, basicblock; exit-code/stderr rule in main; header-sized allocation rule; inter-procedural length-precondition rule (callee relies on len(p) >= k => every caller establishes it)",
+         "every error is returned or checked with a failing branch that cannot return nil; main prints to stderr and exits non-zero; 1 listed known finding (unbounded Memsz allocation); byte-slice lengths relied upon by the decoder are established by its callers and interface entry points rely on nothing unchecked. Absence of panics in general is NOT decided",
          "trusts go/ssa", "§4 C26"),
- "C27": ("module-wide byte-slice ownership analysis; fresh-storage rule for newConst call sites; only-writers of Const.bs",
-         "aliasing clause only: constants never share storage with caller-owned slices and nothing writes through constant storage; the numeric encoding/range checks are NOT decided",
+ "C27": ("module-wide byte-slice ownership analysis; fresh-storage rule for newConst call sites; only-writers of Const.bs; encoding-loop pattern and accept/reject decision table of NewConstUint/NewConstInt by concrete CFG walk",
+         "constants never share storage with caller-owned slices and nothing writes through constant storage; the integer constructors store byte(val>>8i) little-endian in a fresh w-byte slice and reject exactly the values whose shifted-out rest is not zero (unsigned) / not the sign extension of the top stored byte (signed). The reading accessors (ConstUint/ConstInt) are NOT decided",
          "trusts go/ssa; field-based alias abstraction", "§4 C27"),
- "C28": ("traversal rules over the sealed IR: exhaustiveness of all 11 type switches, constructor/field/accessor order, Equal compare tables (boolean path enumeration), FindAll pre-order and threading, ReplaceAll/EffectApply rebuild homomorphism, Exprs child sets",
+ "C28": ("traversal rules over the sealed IR: exhaustiveness of all 11 type switches, constructor/field/accessor order, Equal compare tables (boolean path enumeration), FindAll pre-order and threading, ReplaceAll/EffectApply rebuild homomorphism (the replacement function sees the rebuilt node), Exprs child sets",
          "the structural utilities visit/compare/rebuild exactly the children and attributes of every node type in the right order; follows the property closely because these functions are structural themselves",
          "trusts go/ssa", "§4 C28"),
  "C30": ("user-input taint for constant slicing, prefix/base/strip agreement table of parseAddr, guard/dataflow rules of readValue",
          "no unguarded slicing; each prefix literal selects its base and strips its own length under a length check admitting longer inputs; empty/underscore rejected before SetString; negative via Sub(0,|n|) folded. The numeric value of strconv/big parsing is trusted",
          "trusts go/ssa, strconv and math/big", "§4 C30"),
- "C31": ("validate-before-assign rule and decision table of Cursor.Set/checkOffset, line-index taint and cyclic-search shape of the navigation commands, error propagation",
-         "a failed command leaves the cursor unchanged, accepted offsets are exactly 0 <= v < max, navigation reaches the listing only with validated indices, find wraps start and step",
+ "C31": ("validate-before-assign rule and decision table of Cursor.Set/checkOffset, line-index taint of the navigation commands, concrete CFG walk of the find search for 1-5 lines x every cursor x every first match, error propagation",
+         "a failed command leaves the cursor unchanged, accepted offsets are exactly 0 <= v < max, navigation reaches the listing only with validated indices, find probes exactly the lines after the cursor in cyclic order, never the cursor line, and lands on the first match",
          "trusts go/ssa", "§4 C31"),
- "C32": ("compaction idiom on memoryLines, line-index taint in the memory view, row construction patterns",
-         "merged rows are dropped, rows are indexed below their number, rows are window∩block, the address command searches the ranges; byte rendering is not decided",
+ "C32": ("compaction idiom on memoryLines, line-index taint in the memory view, concrete CFG walk of block2Lines for every block within [0,50)",
+         "merged rows are dropped, rows are indexed below their number, rows are exactly one per overlapping 16-byte window holding window∩block, the address command searches the ranges; byte rendering is not decided",
          "trusts go/ssa", "§4 C32"),
 }
 
